@@ -299,7 +299,9 @@ class CFGBuilder(AstVisitor[BB | None]):
         func_ty = check_signature(node, self.globals)
         returns_none = isinstance(func_ty.output, NoneType)
         # No UnitaryFlags are assigned to nested functions
-        cfg = CFGBuilder().build(node.body, returns_none, self.globals)
+        # The body is empty if the function consists only of a docstring
+        body = node.body or [with_loc(node, ast.Pass())]
+        cfg = CFGBuilder().build(body, returns_none, self.globals)
 
         new_node = NestedFunctionDef(
             cfg,
